@@ -49,7 +49,7 @@ CHECKS = {
         assumptions=["C int/uint are 32-bit, Go's 64-bit: values are generated in the common range", "writes through slices returned by Unroll are excluded from the lock-step (C views unroll to copies by design)"],
         quick=dict(stages=[st(2500, run="TestLockStepGoVsC", timeout=600),
                            st(200, race=True, run="TestConcurrentReaders", timeout=600),
-                           st(400, pkg="libow", overlay=dict(map_main={"libopenwater": "libow"}), run="TestEntryPointInProcess", timeout=600),
+                           st(1200, pkg="libow", overlay=dict(map_main={"libopenwater": "libow"}), run="TestEntryPointInProcess", timeout=600),
                            st(150, pkg="libow", overlay=dict(map_main={"libopenwater": "libow"}), run="TestEntryPointThroughCABI", timeout=600)]),
         thorough=dict(stages=[st(0, fuzz="FuzzLockStepGoVsC", fuzztime="60s", timeout=600), st(150000, shards=10, run="TestLockStepGoVsC", timeout=3000),
                               st(6000, shards=3, race=True, run="TestConcurrentReaders", timeout=3000),
@@ -214,7 +214,7 @@ CHECKS = {
     "C05": dict(
         require={'__nontrivial__': 0.3},
         pkg="c05", level="exploration",
-        rule="built with the Go race detector (halt on first report): (1) rapid-generated vectorised-Run cases as in C04 with 2..24 cells (thorough 48) over the whole catalogue, GOMAXPROCS drawn from {1,2,3,4,8,16}, each case run 3 times and every repetition compared bit-for-bit with the sequential cell-by-cell reference; "
+        rule="built with the Go race detector (halt on first report): (1) rapid-generated vectorised-Run cases as in C04 with 2..24 cells (thorough 48) over the whole catalogue, GOMAXPROCS drawn from {1,2,3,4,8,16}, each case run 3 times and every repetition compared bit-for-bit with the sequential cell-by-cell reference, and after each Run has returned no goroutine created by a model's Run may still be alive (a cell that was not joined); plus the 18 boundary cell counts 31..4097 once each; "
              "(2) rapid-generated ow-sim graphs as in C07, 2-3 repetitions each, GOMAXPROCS drawn, delays injected separately at writer-side (mutating) and main-loop (read) calls of the HDF5 stand-in, every repetition compared with the sequential graph interpreter. "
              "Non-trivial = >= 2 cells (resp. >= 2 model types and >= 2 non-empty generations with an output file); distinct = distinct case",
         assumptions=["the race detector reports unsynchronised conflicting accesses on the executions that happened; this is exploration of schedules (GOMAXPROCS, injected delays, repetition), not enumeration"],
